@@ -626,6 +626,7 @@ func checkC16(c *Check) {
 	responseFreshPerCheck(c, "C16.R4", R)
 	noUnsafeSharedDependencyObject(c, "C16.R1", R)
 	gatesAreOpened(c, "C16.R3")
+	mutexOwnersHavePointerReceivers(c, "C16.R2")
 	cacheEntriesPublishedComplete(c, "C16.R2")
 	// the generator a check draws its identifiers from is built for that check by the audited constructor and
 	// carries no state (C06.R2 wiring, C06.R3 independence): a generator shared by concurrent checks with a
@@ -1058,4 +1059,56 @@ func cacheEntriesPublishedComplete(c *Check, rule string) {
 
 func nthKeyOf(i ssa.Instruction) string {
 	return fnKey(i.Parent())
+}
+
+// mutexOwnersHavePointerReceivers: every method of an own struct type that contains a sync.Mutex / RWMutex
+// (directly or in an embedded struct) has a pointer receiver. A value receiver copies the struct: the method
+// locks its private copy of the mutex (or deadlocks on a copy taken while it was held) and works on the
+// shared maps behind it without any protection.
+func mutexOwnersHavePointerReceivers(c *Check, rule string) {
+	P := c.P
+	hasMutex := func(t types.Type) bool {
+		seen := map[types.Type]bool{}
+		var walk func(t types.Type) bool
+		walk = func(t types.Type) bool {
+			if seen[t] {
+				return false
+			}
+			seen[t] = true
+			switch id := typeID(t); id {
+			case "sync.Mutex", "sync.RWMutex", "sync.WaitGroup", "sync.Once", "sync.Cond":
+				return true
+			}
+			if st, ok := t.Underlying().(*types.Struct); ok {
+				for i := 0; i < st.NumFields(); i++ {
+					if _, isPtr := st.Field(i).Type().(*types.Pointer); isPtr {
+						continue
+					}
+					if walk(st.Field(i).Type()) {
+						return true
+					}
+				}
+			}
+			return false
+		}
+		return walk(t)
+	}
+	n := 0
+	for _, nt := range P.ownNamedTypes() {
+		if strings.Contains(nt.Obj().Pkg().Path(), "/config/gen/") || !hasMutex(nt) {
+			continue
+		}
+		n++
+		for i := 0; i < nt.NumMethods(); i++ {
+			m := nt.Method(i)
+			sig := m.Type().(*types.Signature)
+			if sig.Recv() == nil {
+				continue
+			}
+			_, isPtr := sig.Recv().Type().(*types.Pointer)
+			c.Obl(isPtr, rule, "mutex-owner-pointer-receiver/"+typeID(nt)+"."+m.Name(), P.Pos(m.Pos()), "pointer receiver",
+				"method "+m.Name()+" of "+typeID(nt)+" has a value receiver although the type contains a mutex: it runs on a copy of the struct, with a private copy of the lock")
+		}
+	}
+	c.Obl(n >= 3, rule, "mutex-owners", "-", fmt.Sprintf("%d own types contain a mutex", n), "own types with a mutex not found (anchor lost)")
 }
